@@ -25,4 +25,8 @@ CHECKS = {
         "text": "Theorems (closed under the global context): pointwise characterisation of every residue after Mask (replaced iff inside the window and not protected by the gap / reference flags, otherwise untouched), outside-window and protected residues unchanged, names/order/length unchanged, exact error conditions, overhanging windows equal truncated ones, the MAJ replacement is a most frequent byte (proved over the fold of the 130-entry table); for MaskOccurences/MaskUnique the pointwise characterisation with 'masked iff counted, non-gap, count within (0, threshold], different from the replacement'.",
         "note": "Trusted: kernel+VM, harness, hand model (in-place column loops as per-row maps; ASCII residues).",
     },
+    "C14": {
+        "text": "Theorems (closed under the global context): case-folded count tables contain exactly the occurring upper-cased characters with their counts, one entry each; the majority search (a fold over keys in increasing order, as in the repaired MaxCharStats) returns a most frequent non-excluded character with its count and the non-excluded total, or the first-row fallback when everything is excluded - and, being a function of the column, the same answer on every call; out-of-range site indices are errors for the per-site statistics; IUPAC compatibility is symmetric and means identical codes or intersecting base sets. The other listed statistics are modelled and compared with the code and with their naive definitions on every generated case.",
+        "note": "Partial: Entropy value, PSSM, mutation lists and count profiles are not modelled; several statistics are judged by the per-case spec oracle only (bounded). Trusted: kernel+VM, harness, hand model.",
+    },
 }
